@@ -8,7 +8,7 @@ from fractions import Fraction
 
 import numpy as np
 
-from harness.core import coq_bool, coq_list, q_lit, run_impl
+from harness.core import safe_fraction, coq_bool, coq_list, q_lit, run_impl
 
 HEADER = ("From Coq Require Import QArith Qabs List Bool ZArith.\nFrom SV Require Import model.Thermal.\n"
           "Import ListNotations.\nOpen Scope Q_scope.\n")
@@ -21,7 +21,7 @@ def hx(x):
 
 
 def fq(x):
-    return q_lit(Fraction(float(x)))
+    return q_lit(safe_fraction(x))
 
 
 def unhex(l):
